@@ -32,11 +32,28 @@ def ctor(name, *args):
 
 
 class Machine:
-    def __init__(self, body_hir, env, transparent=("clone", "into", "to_owned", "as_ref", "borrow", "deref", "copied", "cloned")):
+    def __init__(self, body_hir, env, transparent=("clone", "into", "to_owned", "as_ref", "borrow", "deref", "copied", "cloned"), F=None, depth=0):
         self.body = body_hir
         self.env = dict(env)
         self.events = []
         self.transparent = set(transparent)
+        self.F = F          # facts: when given, calls of crate functions whose HIR is known are evaluated (inlined), to a depth of 4
+        self.depth = depth
+
+    def _inline(self, path, args):
+        """Evaluate a crate function on already evaluated arguments; its recorded events are appended to ours.  Returns (done, value)."""
+        if self.F is None or self.depth >= 4 or not path or not self.F.has(path):
+            return False, None
+        cb = self.F.body(path)
+        if cb is None or not cb.hir or len(cb.hir.get("params") or []) != len(args):
+            return False, None
+        sub = Machine(cb.hir, {}, transparent=self.transparent, F=self.F, depth=self.depth + 1)
+        for p_, v in zip(cb.hir["params"], args):
+            if not sub.bind(p_, v):
+                raise Unknown("parameter pattern of %s" % path)
+        val = sub.run()
+        self.events.extend(sub.events)
+        return True, val
 
     # -- patterns -----------------------------------------------------------------------------
     def bind(self, pat, val):
@@ -140,6 +157,9 @@ class Machine:
             args = [self.ev(a) for a in e["args"]]
             if "Ctor" in dk or d[:1].isupper() or hir.last(d)[:1].isupper():
                 return ctor(hir.last(d), *args)
+            done, val = self._inline(d, args)
+            if done:
+                return val
             self.events.append(("call", hir.last(d), tuple(args)))
             return Sym("result of %s" % hir.last(d))
         if k == "mcall":
@@ -147,6 +167,9 @@ class Machine:
             args = [self.ev(a) for a in e["args"]]
             if e["m"] in self.transparent and not args:
                 return recv
+            done, val = self._inline(e.get("def"), [recv] + args)
+            if done:
+                return val
             self.events.append(("mcall", e["m"], recv, tuple(args)))
             return Sym("result of %s" % e["m"])
         if k == "field":
@@ -228,10 +251,11 @@ class Machine:
             return r.value
 
 
-def run_function(body_hir, param_values):
+def run_function(body_hir, param_values, F=None):
     """Evaluate a function body with its parameters (by position) bound to the given values.
-    Returns (result, events). Raises Unknown when the code uses something outside the understood fragment."""
-    m = Machine(body_hir, {})
+    Returns (result, events). Raises Unknown when the code uses something outside the understood fragment.
+    With F (facts), calls of crate functions are evaluated too (helpers extracted from the function are followed)."""
+    m = Machine(body_hir, {}, F=F)
     for i, p in enumerate(body_hir.get("params") or []):
         v = param_values.get(i, Sym(p.get("name") or "param%d" % i))
         try:
